@@ -229,7 +229,8 @@ func thoroughExtras(r *Run, pd *propDef, repo, verif string) {
 		}
 	}
 	if os.Getenv("HAQQCHECK_NESTED") == "" {
-		for _, cfg := range []struct{ name, goarch, tags string }{{"GOARCH=arm64", "arm64", ""}, {"tags=netgo,ledger", "", "netgo,ledger"}} {
+		buildConstraintInventory(r, repo)
+		for _, cfg := range []struct{ name, goarch, tags string }{{"tags=netgo,ledger", "", "netgo,ledger"}} {
 			tv, _ := os.MkdirTemp("", "haqqcheck-cfg")
 			os.MkdirAll(filepath.Join(tv, "evidence"), 0o755)
 			if kb, err := os.ReadFile(filepath.Join(verif, "known_findings.json")); err == nil {
@@ -286,4 +287,62 @@ func thoroughExtras(r *Run, pd *propDef, repo, verif string) {
 			}
 		}
 	}
+}
+
+// buildConstraintInventory (thorough): the analysed configuration is the only one for consensus code.
+// Other GOOS/GOARCH cannot be loaded in this sandbox (go-ethereum's secp256k1 needs cgo and there is
+// no cross C compiler), so instead of re-analysing them the check establishes that no non-test Haqq
+// file is excluded from, or conditionally included in, the default build — except the tabled
+// rpc debug-trace pair, which is outside consensus scope.
+func buildConstraintInventory(r *Run, repo string) {
+	allowed := map[string]string{
+		"rpc/namespaces/ethereum/debug/trace_fallback.go": "go<1.5 fallback of the rpc debug tracer (outside consensus scope)",
+		"rpc/namespaces/ethereum/debug/trace.go":          "go1.5 variant of the rpc debug tracer (outside consensus scope)",
+		"tests/e2e/utils.go":                              "e2e test helper package",
+	}
+	cmd := exec.Command("go", "list", "-f", "{{.Dir}}|{{range .IgnoredGoFiles}}{{.}} {{end}}|{{range .GoFiles}}{{.}} {{end}}{{range .CgoFiles}}{{.}} {{end}}", "./...")
+	cmd.Dir = repo
+	cmd.Env = append(os.Environ(), "GOFLAGS=-mod=mod", "GOPROXY=off", "GOSUMDB=off", "GOTOOLCHAIN=local", "GOWORK=off")
+	out, err := cmd.Output()
+	if err != nil {
+		r.Fail("thorough: go list for the build-constraint inventory failed: %v", err)
+		return
+	}
+	nFiles, nConstrained := 0, 0
+	for _, line := range strings.Split(strings.TrimSpace(string(out)), "\n") {
+		parts := strings.Split(line, "|")
+		if len(parts) != 3 {
+			continue
+		}
+		rel := strings.TrimPrefix(strings.TrimPrefix(parts[0], repo), "/")
+		for _, f := range strings.Fields(parts[1]) {
+			if strings.HasSuffix(f, "_test.go") {
+				continue
+			}
+			key := filepath.ToSlash(filepath.Join(rel, f))
+			nConstrained++
+			_, ok := allowed[key]
+			r.Check(ok, "CFG", "ignored-file/"+key, key, "tabled: "+allowed[key], "a non-test Go file is excluded from the analysed build configuration: code that other builds compile was not analysed")
+		}
+		for _, f := range strings.Fields(parts[2]) {
+			nFiles++
+			b, err := os.ReadFile(filepath.Join(parts[0], f))
+			if err != nil {
+				continue
+			}
+			head := string(b)
+			if i := strings.Index(head, "\npackage "); i >= 0 {
+				head = head[:i]
+			}
+			if strings.Contains(head, "//go:build") || strings.Contains(head, "// +build") {
+				key := filepath.ToSlash(filepath.Join(rel, f))
+				nConstrained++
+				_, ok := allowed[key]
+				r.Check(ok, "CFG", "constrained-file/"+key, key, "tabled: "+allowed[key], "a non-test Go file carries a build constraint: the analysed configuration is not the only one for this code")
+			}
+		}
+	}
+	r.Rule("CFG", "thorough: no non-test Haqq file is excluded from or conditionally included in the default build (except tabled rpc/test files), and the same rules hold under -tags netgo,ledger")
+	r.Count("thorough: Go files checked for build constraints", nFiles)
+	r.Count("thorough: build-constrained files (all tabled)", nConstrained)
 }
